@@ -202,6 +202,22 @@ fn ty_str<'tcx>(tcx: TyCtxt<'tcx>, t: Ty<'tcx>) -> String {
         ty::Coroutine(did, _) => format!("{{coroutine:{}}}", nice(tcx, *did)),
         ty::CoroutineClosure(did, _) => format!("{{coroutine-closure:{}}}", nice(tcx, *did)),
         ty::Alias(..) => alias_str(tcx, t),
+        ty::Dynamic(preds, _) => {
+            let mut parts: Vec<String> = vec![];
+            for p in preds.iter() {
+                match p.skip_binder() {
+                    ty::ExistentialPredicate::Trait(tr) => {
+                        let a: Vec<ty::GenericArg<'tcx>> = tr.args.iter().collect();
+                        parts.push(with_args(nice(tcx, tr.def_id), args_str(tcx, &a, true)));
+                    }
+                    ty::ExistentialPredicate::AutoTrait(d) => parts.push(nice(tcx, d)),
+                    ty::ExistentialPredicate::Projection(pr) => {
+                        parts.push(format!("{}=..", nice(tcx, pr.def_id)));
+                    }
+                }
+            }
+            format!("dyn {}", parts.join(" + "))
+        }
         _ => format!("{}", t),
     }
 }
